@@ -18,6 +18,7 @@ import (
 	"bufio"
 	"io"
 	"os"
+	"strings"
 
 	"github.com/alibaba/sentinel-golang/core/base"
 	"github.com/alibaba/sentinel-golang/logging"
@@ -175,18 +176,14 @@ func (r *defaultMetricLogReader) readMetricsInOneFileByEndTime(filename string, 
 }
 
 func readLine(bufReader *bufio.Reader) (string, error) {
-	buf := make([]byte, 0, 64)
-	for {
-		line, ne, err := bufReader.ReadLine()
-		if err != nil {
-			return "", err
-		}
-		buf = append(buf, line...)
-		if !ne {
-			return string(buf), err
-		}
-		// buffer size < line size, so we need to read until the `ne` flag is false.
+	// Only lines terminated by a line break count. The writer ends every line with one, so an
+	// unterminated last line has been cut off (e.g. the process died while writing it) and must
+	// not be parsed: a truncated number still parses, into an item that was never written.
+	line, err := bufReader.ReadString('\n')
+	if err != nil {
+		return "", err
 	}
+	return strings.TrimRight(line, "\r\n"), nil
 }
 
 func getLatestSecond(items []*base.MetricItem) uint64 {
